@@ -73,8 +73,9 @@ let show_rr (r : ZfParser.rr) =
 let show_item ((p, n), r) = Printf.sprintf "%s:%d %s" (hex p) (int_of_n n) (show_rr r)
 
 let show_err p e = match e with
-  | ZfInc.ISyntax (ps, k) ->
+  | ZfInc.ISyntax (ZfInc.ESyn (ps, k)) ->
     Printf.sprintf "err=syntax:%s:%d:%d:%s" (hex p) (int_of_n ps.ZfReader.p_line) (int_of_n ps.ZfReader.p_col) (kind k)
+  | ZfInc.ISyntax ZfInc.EIo -> Printf.sprintf "err=io:%s" (hex p)
   | ZfInc.IOpen (n, np) -> Printf.sprintf "err=open:%s:%d:%s" (hex p) (int_of_n n) (hex np)
   | ZfInc.ITooDeep (n, chain) ->
     Printf.sprintf "err=toodeep:%s:%d:%s" (hex p) (int_of_n n)
@@ -103,15 +104,37 @@ let fuel = nat_of_int 200000
 let () = run_lines (fun f ->
   match f with
   | "incf" :: depth :: root :: enc :: flat :: _ ->
-    let tbl = Hashtbl.create 8 in
+    let tbl = Hashtbl.create 8 and dirs = Hashtbl.create 8 in
+    Hashtbl.replace dirs "" ();                                  (* the scratch directory itself *)
     Stdlib.List.iter (fun file ->
         let i = String.index file '=' in
         let p = String.sub file 0 i and body = String.sub file (i + 1) (String.length file - i - 1) in
-        Hashtbl.replace tbl (normalise (string_of_bytes (unhex p))) (unhex body)) (String.split_on_char ';' enc);
-    (* absolute paths lie outside the generated tree *)
-    let fs (p : BinNums.coq_N list) =
+        let np = normalise (string_of_bytes (unhex p)) in
+        Hashtbl.replace tbl np (unhex body);
+        (* every directory on the way to the file exists *)
+        let parts = String.split_on_char '/' np in
+        let rec go acc = function
+          | [] | [_] -> ()
+          | d :: r -> let a = if acc = "" then d else acc ^ "/" ^ d in Hashtbl.replace dirs a (); go a r in
+        go "" parts) (String.split_on_char ';' enc);
+    (* File::open on the generated tree: absolute paths lie outside it; a path that climbs above the
+       scratch directory with nothing but `..` names one of its (existing) ancestors; a path written
+       with a trailing `/` or `/.` can only name a directory *)
+    let fs (p : BinNums.coq_N list) : ZfInc.fobj option =
       let s = string_of_bytes p in
-      if s <> "" && s.[0] = '/' then None else Hashtbl.find_opt tbl (normalise s) in
+      if s <> "" && s.[0] = '/' then None
+      else begin
+        let n = normalise s in
+        let must_be_dir =
+          let l = String.length s in
+          (l >= 1 && s.[l - 1] = '/') || (l >= 2 && String.sub s (l - 2) 2 = "/.") || s = "." in
+        match Hashtbl.find_opt tbl n with
+        | Some c -> if must_be_dir then None else Some (ZfInc.FFile c)
+        | None ->
+          if Hashtbl.mem dirs n then Some ZfInc.FDir
+          else if n <> "" && Stdlib.List.for_all (fun x -> x = "..") (String.split_on_char '/' n) then Some ZfInc.FDir
+          else None
+      end in
     let d = nat_of_int (int_of_string depth) in
     let rootb = unhex root in
     let render items tail =
